@@ -163,6 +163,9 @@ def equality_test(actual, expected, _exact_strings, _delta):
         if not _are_sets_equal(primary_keys, set(actual.keys()), _exact_strings, _delta):
             return False
         for key in primary_keys:
+            if key not in actual:
+                # the two key sets only agree under the tolerance or the string normalisation
+                return False
             if not equality_test(expected[key], actual[key], _exact_strings, _delta):
                 return False
         return True
